@@ -482,6 +482,33 @@ def appendAligned (s : String × String × String × String × String) : Bool :=
   [("query_dps", "query_self_hits"), ("target_dps", "target_self_hits"), ("query_dps_simp", "query_self_hits"),
    ("target_dps_simp", "target_self_hits"), ("dps", "self_hits")].contains (s.2.1, s.2.2.2.1)
 
+/-! ## The cached built-in score table -/
+
+/-- How a function hands out an object it keeps in a cache. -/
+inductive CopyKind where
+  | deep      -- `copy.deepcopy`: the arrays of the returned table are new
+  | shallow   -- `copy.copy`: a new outer object whose `.cells` / `.axes[k].boundaries` ARE the cached arrays
+  | none      -- the cached object itself
+deriving DecidableEq, Repr
+
+/-- Memory as far as the table is concerned: address ↦ array content. -/
+abbrev Mem := Nat → List Rat
+
+/-- `smat_fcwb()`: the cached table's array lives at address `c`; the caller receives an array address
+(a fresh one holding a copy for a deep copy, the cached one otherwise) and the memory after the call. -/
+def handOut (k : CopyKind) (m : Mem) (c fresh : Nat) : Mem × Nat :=
+  match k with
+  | .deep => (fun a => if a = fresh then m c else m a, fresh)
+  | _ => (m, c)
+
+/-- The caller edits the array it was given in place (`lut.cells[...] = …`, `boundaries *= 4`). -/
+def editAt (m : Mem) (a : Nat) (v : List Rat) : Mem := fun x => if x = a then v else m x
+
+/-- One round: fetch the table, edit what was returned. -/
+def fetchEdit (k : CopyKind) (c : Nat) (m : Mem) (fv : Nat × List Rat) : Mem :=
+  let r := handOut k m c fv.1
+  editAt r.1 r.2 fv.2
+
 /-! ## Checker evaluated on the implementation's own output -/
 
 /-- Does bin `i` of the table declared by `ivs` contain `v`, the outermost bins being open-ended
